@@ -63,7 +63,7 @@ def r_range(ctx):
             if r["verdict"].startswith("unknown") or e["verdict"].startswith("unknown"):
                 ctx.incomplete_msg(rid, key + ": not evaluable")
                 continue
-            at_upper = p in ("v=u", "l=u=v")
+            at_upper = p in ("v=u", "l=u=v") or p.startswith("v=u=")
             differ = r["verdict"] != e["verdict"]
             # if the inclusive form rejects v=u as well (a defect of the inclusive form, reported by C01/C02.range)
             # the two cannot differ there; only report the identity itself
